@@ -397,6 +397,34 @@ def status_of(fb, v, conds, enum_suffix='ClockStatus'):
     return None
 
 
+_IMPLS = [None, None]
+
+
+def impls_of(fb, fn):
+    """workspace implementations a call to a trait method on a type parameter / trait object can dispatch to
+    (class-hierarchy resolution: every impl of that trait method)"""
+    if _IMPLS[0] is not fb:
+        idx = {}
+        for b in fb.bodies():
+            if b.impl_trait and b.defkind != 'Closure' and not b.impl_trait.startswith(('std::', 'core::', 'alloc::')):
+                idx.setdefault((b.impl_trait.split('<')[0], b.name), []).append(b)
+        _IMPLS[0], _IMPLS[1] = fb, idx
+    path = fn.get('path') or ''
+    if '::' not in path:
+        return []
+    tr, meth = path.rsplit('::', 1)
+    return _IMPLS[1].get((tr.split('<')[0], meth), [])
+
+
+def callee_bodies(fb, fn):
+    """bodies a call site can run: the resolved workspace function / closure, else every workspace impl of the trait method"""
+    nm = mir.callee_name(fn)
+    nb = fb.body(nm) or (fb.body(fn['path']) if fn.get('defkind') == 'Closure' else None)
+    if nb is not None:
+        return [nb]
+    return impls_of(fb, fn)
+
+
 def reaches_call(fb, body, pred, seen=None, depth=0):
     """does `body`, directly or through workspace callees (and closures), call something
     whose declared or resolved path satisfies pred?"""
@@ -410,9 +438,9 @@ def reaches_call(fb, body, pred, seen=None, depth=0):
         nm = mir.callee_name(fn)
         if pred(fn['path']) or pred(nm):
             return True
-        nb = fb.body(nm) or (fb.body(fn['path']) if fn.get('defkind') == 'Closure' else None)
-        if nb is not None and reaches_call(fb, nb, pred, seen, depth + 1):
-            return True
+        for nb in callee_bodies(fb, fn):
+            if pred(nb.path) or reaches_call(fb, nb, pred, seen, depth + 1):
+                return True
     return False
 
 
@@ -427,9 +455,7 @@ def reachable_calls(fb, body, seen=None, depth=0, stop=None):
         if not fn:
             continue
         yield body, bb, t, fn
-        nm = mir.callee_name(fn)
-        nb = fb.body(nm) or (fb.body(fn['path']) if fn.get('defkind') == 'Closure' else None)
-        if nb is not None:
+        for nb in callee_bodies(fb, fn):
             yield from reachable_calls(fb, nb, seen, depth + 1, stop)
 
 
